@@ -36,6 +36,7 @@ __all__ = ['DataReader']
 
 fullline_pattern = re.compile(br'.*\n')
 eod_pattern = re.compile(br'^\.\s*?\n$')
+eod_prefix_pattern = re.compile(br'^\.\s*$')
 endl_pattern = re.compile(br'\r?\n$')
 
 
@@ -57,6 +58,7 @@ class DataReader(object):
         self.EOD = None
         self.lines = [b'']
         self.i = 0
+        self.data_size = 0
 
     def _append_line(self, line):
         if len(self.lines) <= self.i:
@@ -80,9 +82,11 @@ class DataReader(object):
             # Check for the End-Of-Data marker.
             if eod_pattern.match(line):
                 self.EOD = i
+                return
+            self.data_size += len(line)
 
             # Remove an initial period on non-EOD lines as per RFC 821 4.5.2.
-            elif line[0:1] == b'.':  # line[0] is an integer
+            if line[0:1] == b'.':  # line[0] is an integer
                 line = line[1:]
                 self.lines[i] = line
 
@@ -95,6 +99,28 @@ class DataReader(object):
         after_match = piece[last:]
         self._append_line(after_match)
 
+    def _check_size(self):
+        # Only message data counts against the limit, never what the client
+        # pipelined behind the End-Of-Data marker.
+        if not self.max_size:
+            return
+        size = self.data_size
+        if self.EOD is None and len(self.lines) > self.i:
+            partial = self.lines[self.i]
+            if not eod_prefix_pattern.match(partial):
+                size += len(partial)
+        if size > self.max_size:
+            raise MessageTooBig()
+
+    def _discard_rest(self):
+        # Read and throw away the remainder of an oversized message, so that
+        # it is not interpreted as commands afterwards.
+        while self.EOD is None:
+            self.lines = self.lines[self.i:]
+            self.i = 0
+            self.add_lines(self.io.raw_recv())
+        self.io.recv_buffer = b''.join(self.lines[self.EOD+1:])
+
     def recv_piece(self):
         if self.EOD is not None:
             return False
@@ -104,11 +130,8 @@ class DataReader(object):
             raise ConnectionLost()
 
         self.size += len(piece)
-        if self.max_size and self.size > self.max_size:
-            self.EOD = self.i
-            raise MessageTooBig()
-
         self.add_lines(piece)
+        self._check_size()
         return self.EOD is None
 
     def return_all(self):
@@ -129,8 +152,13 @@ class DataReader(object):
 
         """
         self.from_recv_buffer()
-        while self.recv_piece():
-            pass
+        try:
+            self._check_size()
+            while self.recv_piece():
+                pass
+        except MessageTooBig:
+            self._discard_rest()
+            raise
         return self.return_all()
 
 
